@@ -6,7 +6,15 @@ From Coq Require Import Strings.String Strings.Byte.
 From Coq Require Import List NArith.
 From Goit Require Import Bytes Sha1 Obj World Repo ObjFacts MonadFacts.
 From Goit Require Import Tree Index Commit Inv ConnectedFacts.
+From Goit Require Import Bridge.
 Import ListNotations.
+
+(* T0 (tie to the source): every regexp literal of the current Go source denotes
+   the same language, with the same anchoring, as the pattern of the model — proved
+   by running the verified equivalence checker on SrcRegex.v, which is regenerated
+   from /repo on every run (see Bridge.v) *)
+Theorem C03_source_patterns_are_the_models : source_patterns_agree.
+Proof. exact source_patterns. Qed.
 
 (* T2: over every history of commands (accepted or refused) and user edits, an
    object file once stored keeps its bytes, unless the model flagged a SHA-1
@@ -74,3 +82,4 @@ Print Assumptions C03_connected_on_every_history.
 Print Assumptions C03_connected_alone_not_inductive.
 Print Assumptions C03_step.
 Print Assumptions C03_branches_name_complete_commits.
+Print Assumptions C03_source_patterns_are_the_models.
